@@ -645,3 +645,35 @@ def modinit_replay(method="RADAU"):
             return True, f"probe modinit {method} {h0} {rtol}", "\n".join(log)
         log.append(f"first_step={h0} rtol={rtol}: identical ({len(a['x'])} callbacks)")
     return None, f"probe modinit {method}", "\n".join(log)
+
+
+def radau_nan_replay():
+    """Native: RADAU with a right-hand side that turns NaN after a few accepted steps must return (no hang) with a failure
+    status and must not hand out a non-finite state."""
+    log = []
+    for nan_at in (40, 80, 200):
+        try:
+            d = probe(["radaunan", nan_at], timeout=30)
+        except subprocess.TimeoutExpired:
+            return True, f"probe radaunan {nan_at}   (real RADAU, y' = cos t + y/2, NaN from evaluation {nan_at} on)", f"no return within 30 s: the solver hangs once the right-hand side returns NaN"
+        except Exception as e:
+            log.append(f"probe failed: {str(e)[:150]}")
+            continue
+        if d.get("hang"):
+            return True, f"probe radaunan {nan_at}   (solve_ivp, Method::RADAU, y' = cos t + y/2, NaN from evaluation {nan_at} on, default step budget)", f"no return after {d.get('calls')} right-hand-side evaluations: the step size stops shrinking once the error norm is NaN"
+        if d.get("nonfinite_state") and d.get("status") == "Success":
+            return True, f"probe radaunan {nan_at}", f"Success with a non-finite state: {d}"
+        log.append(f"NaN from evaluation {nan_at}: status {d.get('status')}, {d.get('steps')} steps")
+    return None, "probe radaunan", "\n".join(log)
+
+
+def dup_hinit_replay():
+    """Native: solve_ivp without first_step on y' = -2y + sin t, one copy vs 2 / 4 copies: first accepted step."""
+    try:
+        d = probe(["duphinit"], timeout=60)
+    except Exception as e:
+        return None, "probe duphinit", f"probe failed: {str(e)[:200]}"
+    for m, rows in d.items():
+        if len({r["t1"] for r in rows}) > 1:
+            return True, "probe duphinit   (solve_ivp, y_i' = -2 y_i + sin t, 1 / 2 / 4 identical copies, no first_step)", f"{m}: first accepted step per copy count: " + ", ".join(f"n={r['n']}: {r['t1']}" for r in rows)
+    return None, "probe duphinit", json.dumps(d)[:400]
